@@ -250,6 +250,8 @@ pub const VECTORS: &[Vector] = &[
     v("return rawequal('a', 'a'), rawequal({}, {}), next({}), next({5})", "true, false, nil, 1.0, 5.0"),
     v("local t = {} local r = rawset(t, 'a', 1) return r == t, t.a", "true, 1.0"),
     v("return string.byte('A'), string.char(72, 105), ('x'):byte()", "65.0, \"Hi\", 120.0"),
+    vl("local m = ET'q' return tostring(m)", "\"ET\"", &["ET(q)", "mm:__tostring(<ET:q>)"]),
+    vl("local m = ET'q' return `a{m}b{E1()}`", "\"aETb1\"", &["ET(q)", "E1()", "mm:__tostring(<ET:q>)"]),
 ];
 
 /// programs both dialects reject (Lua 5.1 manual 2.5.9: `...` only inside a vararg function)
@@ -259,6 +261,10 @@ pub const REJECTED: &[&str] = &[
     "local f = function(a) local b = ... end",
     "function t:m() print(...) end",
 ];
+
+/// programs Luau rejects (a const binding cannot be assigned)
+pub const REJECTED_LUAU: &[&str] = &["const a = 1 a = 2", "const a, b = 1, 2 b += 1", "const function f() end f = nil", "const a = 1 do local function g() a = 3 end end", "const a = 1 function a() end"];
+pub const ACCEPTED_LUAU: &[&str] = &["const a = 1 local a = 2 a = 3", "const a = 1 do local a a = 2 end return a", "const t = {} t.x = 1 t[1] = 2", "local a = 1 const b = a a = 2"];
 
 pub const ACCEPTED: &[&str] = &["return ...", "local a = ... return function(...) return ... end", "local function f(a, ...) return select('#', ...) end"];
 
@@ -270,6 +276,16 @@ pub fn run_vectors() -> Vec<String> {
             if super::parser::parse(src.as_bytes(), mode).is_ok() {
                 failures.push(format!("`{}` must be rejected", src));
             }
+        }
+    }
+    for src in REJECTED_LUAU {
+        if super::parser::parse(src.as_bytes(), Mode::Luau).is_ok() {
+            failures.push(format!("`{}` must be rejected", src));
+        }
+    }
+    for src in ACCEPTED_LUAU {
+        if super::parser::parse(src.as_bytes(), Mode::Luau).is_err() {
+            failures.push(format!("`{}` must be accepted", src));
         }
     }
     for src in ACCEPTED {
